@@ -128,6 +128,39 @@ func runCheck(cfg *propertyConfig, tier, repo string, seed int) int {
 		}
 	}
 	var notes []string
+	// Engine B: abstract contracts serving this property
+	var bresults []*bResult
+	if prog != nil {
+		var keys []string
+		for _, k := range prog.AOrder {
+			c := prog.AContracts[k]
+			for _, p := range c.Props {
+				if p == cfg.ID {
+					keys = append(keys, k)
+				}
+			}
+		}
+		if len(keys) > 0 {
+			fp, err := LoadFrameProg(repo)
+			if err != nil {
+				loadErr = err.Error()
+			} else {
+				for _, k := range keys {
+					r := VerifyAbstract(prog, fp, k)
+					bresults = append(bresults, r)
+					all = append(all, r.Obls...)
+				}
+				// the abstract leaf contracts are assumptions: list them
+				for _, k := range prog.AOrder {
+					c := prog.AContracts[k]
+					if c.Trusted {
+						why := strings.Join(c.Raw["trusted"], " ")
+						notes = append(notes, "assumed abstract (ring-element level) contract: "+shortPkg(k)+" "+why)
+					}
+				}
+			}
+		}
+	}
 	if cfg.Extra != nil && prog != nil {
 		obs, ns := cfg.Extra(prog, tier)
 		all = append(all, obs...)
@@ -264,6 +297,55 @@ func runCheck(cfg *propertyConfig, tier, repo string, seed int) int {
 				"result": o.Status, "backend": o.Solver, "seconds": o.Seconds, "goal": trunc(o.Goal.Key(), 300), "assumptions": len(o.Assume)})
 		}
 	}
+	for _, r := range bresults {
+		fe := funcEvidence{Function: r.Name + " [abstract]", File: r.File, Backends: map[string]int{}}
+		if r.Err != "" {
+			fe.Status = "out-of-subset"
+			fe.Note = r.Err
+			outOfSubset = append(outOfSubset, r.Name+": "+r.Err)
+			nObl++
+			fail(r.Name+"/translate", "function under abstract contract could not be executed / contract does not match the code", r.Err, nil)
+			fev = append(fev, fe)
+			continue
+		}
+		okAll := true
+		for _, o := range r.Obls {
+			nObl++
+			fe.Obligations++
+			fe.SolverS += o.Seconds
+			if o.Kind == "vacuity" {
+				if o.Status == "unsat" {
+					okAll = false
+					fail(o.Name, "vacuous contract: the preconditions are contradictory", o.Output, o)
+				} else {
+					nDis++
+					fe.Discharged++
+				}
+				continue
+			}
+			if o.Status == "unsat" {
+				nDis++
+				fe.Discharged++
+				fe.Backends[o.Solver]++
+				backendTotals[o.Solver]++
+			} else {
+				okAll = false
+				fail(o.Name, "obligation not discharged ("+o.Status+")", o.Output, o)
+			}
+		}
+		totalSolver += fe.SolverS
+		fe.Status = map[bool]string{true: "proved", false: "failed"}[okAll]
+		fe.Note = fmt.Sprintf("paths=%d; executed inline (transparent accessors): %s", r.Paths, strings.Join(r.Inlined, ", "))
+		for _, n := range r.Notes {
+			notes = append(notes, r.Name+": "+n)
+		}
+		fev = append(fev, fe)
+		if len(samples) < 6 && len(r.Obls) > 1 {
+			o := r.Obls[len(r.Obls)-1]
+			samples = append(samples, map[string]interface{}{"obligation": o.Name, "kind": o.Kind, "at": o.File,
+				"result": o.Status, "backend": o.Solver, "seconds": o.Seconds, "goal": trunc(o.Goal.Key(), 300), "assumptions": len(o.Assume)})
+		}
+	}
 	for _, o := range all {
 		if o.Func == "lemma-library" || strings.HasPrefix(o.Func, "extra:") {
 			nObl++
@@ -330,7 +412,7 @@ func runCheck(cfg *propertyConfig, tier, repo string, seed int) int {
 			"trusted_base":       append([]string{"lvc VC generator (translation rules, polynomial normal form, heap model)", "SMT solvers' unsat answers"}, cfg.Trusted...),
 			"explanation":        cfg.Explain,
 			"functions":          fev,
-			"functions_under_contract": len(results),
+			"functions_under_contract": len(results) + len(bresults),
 			"functions_proved":   countStatus(fev, "proved"),
 			"functions_trusted":  trustedFuncs,
 			"out_of_subset":      outOfSubset,
@@ -345,7 +427,7 @@ func runCheck(cfg *propertyConfig, tier, repo string, seed int) int {
 	b, _ := json.MarshalIndent(ev, "", " ")
 	_ = os.WriteFile(filepath.Join(verifRoot, "evidence", cfg.ID+".json"), b, 0o644)
 	fmt.Printf("%s tier=%s: %d obligations, %d discharged, %d functions (%d proved, %d trusted), %d violation(s), %d known finding(s), %.1fs\n",
-		cfg.ID, tier, nObl, nDis, len(results), countStatus(fev, "proved"), len(trustedFuncs), len(violations), len(knownHit), wall)
+		cfg.ID, tier, nObl, nDis, len(results)+len(bresults), countStatus(fev, "proved"), len(trustedFuncs), len(violations), len(knownHit), wall)
 	if len(violations) > 0 {
 		return 1
 	}
